@@ -302,6 +302,7 @@ fn render_fn_pass(ctx: &mut Ctx, unit: &Unit, fs: &FnSpec, found: &FoundFn, in_t
                     *pt.pat = parse_quote!(#id);
                     n.bump("R-WILDPARAM");
                 }
+                if let Type::Reference(r) = &*pt.ty { if r.mutability.is_some() && matches!(&*r.elem, Type::Slice(_)) { if let Pat::Ident(pi) = &*pt.pat { n.mut_slices.push(pi.ident.to_string()); } } }
                 let mut name = ts(&pt.pat);
                 if let Pat::Ident(pi) = &mut *pt.pat {
                     if pi.mutability.is_some() && pi.by_ref.is_none() {
@@ -341,6 +342,14 @@ fn render_fn_pass(ctx: &mut Ctx, unit: &Unit, fs: &FnSpec, found: &FoundFn, in_t
         }
     }
     let has_ret = !matches!(sig.output, ReturnType::Default);
+    if fs.opts.contains("retbind-typed") {
+        if let ReturnType::Type(_, t) = &sig.output {
+            let mut t2 = (**t).clone();
+            let mut nn = Norm::new(fs, unit, false, "");
+            nn.visit_type_mut(&mut t2);
+            n.ret_ty = parse_str::<Type>(&fs.rettype.clone().unwrap_or_else(|| ts(&t2))).ok();
+        }
+    }
     n.run_block(&mut block, has_ret);
     for (k, s) in pre.into_iter().enumerate() { block.stmts.insert(k, s); }
 
@@ -621,6 +630,15 @@ fn main() {
                                 }));
                             }
                         } } }
+                        // `Type::NAME`: associated const of an inherent impl, emitted verbatim inside `impl Type { .. }`
+                        if let (Some(ty), cn) = split_path(name) {
+                            for it in &f.items { if let Item::Impl(im) = it { if im.trait_.is_none() && squash(&ts(&im.self_ty)) == squash(&ty) {
+                                for ii in &im.items { if let ImplItem::Const(c) = ii { if c.ident == cn.as_str() {
+                                    let mut c = c.clone(); c.attrs.clear(); c.vis = parse_quote!(pub);
+                                    o.push_str(&format!("// ---- const {} from {}\nimpl{} {} {{\n    {}\n}}\n", name, file, strip_generic_defaults(&im.generics), ts(&im.self_ty), ts(&c))); done = true;
+                                } } }
+                            } } }
+                        }
                         if !done { ctx.problems.push(format!("LOST-ANCHOR const {} in {}", name, file)); }
                     }
                     Err(e) => ctx.problems.push(e),
